@@ -107,3 +107,122 @@ package grpc
 //@   assert at call NewTimer#1 rp != nil && cs.numRetries+1 < rp.MaxAttempts
 //@   assert at call NewTimer#1 implies(hasPushback && Z(pushback) <= 9223372036854, Z(arg0) == 1000000 * Z(pushback) && cs.numRetriesSincePushback == 0)
 
+
+// ---- C06 / C27: message framing, receive limit, compression flag ---------------------
+//
+// checkRecvPayload: total case analysis of (flag, grpc-encoding, decompressor
+// present, side). recvMsg: the body is requested from the stream only when the
+// declared length is within the limit, with exactly the declared length, and
+// the RESOURCE_EXHAUSTED statuses are built exactly when it is not. msgHeader:
+// flag byte and big-endian length of the payload actually selected.
+
+//@ import status "google.golang.org/grpc/status"
+
+//@ func checkRecvPayload
+//@   prop C06 C27
+//@   nopanic
+//@   ensures implies(pf == compressionNone, result == nil)
+//@   ensures implies(pf == compressionMade && recvCompress != "" && recvCompress != "identity" && haveCompressor, result == nil)
+//@   ensures implies(pf == compressionMade && (recvCompress == "" || recvCompress == "identity"), result != nil && result.Code() == codes.Internal)
+//@   ensures implies(pf == compressionMade && recvCompress != "" && recvCompress != "identity" && !haveCompressor && isServer, result != nil && result.Code() == codes.Unimplemented)
+//@   ensures implies(pf == compressionMade && recvCompress != "" && recvCompress != "identity" && !haveCompressor && !isServer, result != nil && result.Code() == codes.Internal)
+//@   ensures implies(pf != compressionNone && pf != compressionMade, result != nil && result.Code() == codes.Internal)
+//@   ensures implies(result != nil, result.Code() != codes.OK)
+
+//@ func (*parser).recvMsg
+//@   prop C06
+//@   requires p != nil && p.r != nil
+//@   assert at call Read#1 pf == payloadFormat(p.header[0])
+//@   assert at call Read#1 Z(arg0) == Z(p.header[1])*16777216 + Z(p.header[2])*65536 + Z(p.header[3])*256 + Z(p.header[4])
+//@   assert at call Read#1 0 <= arg0 && arg0 <= maxReceiveMessageSize
+//@   assert at call Errorf#2 arg0 == codes.ResourceExhausted && Z(length) > Z(maxReceiveMessageSize)
+
+//@ func msgHeader
+//@   prop C06 C27
+//@   nopanic
+//@   ensures len(hdr) == 5 && hdr[0] == byte(pf)
+//@   ensures implies(pf == compressionMade, sameslice(payload, compData)) && implies(pf != compressionMade, sameslice(payload, data))
+//@   assert at call Len#1 pf == compressionMade && sameslice(arg0, compData)
+//@   assert at call Len#2 pf != compressionMade && sameslice(arg0, data)
+//@   ensures implies(0 <= lastret("Len") && lastret("Len") < 4294967296, Z(hdr[1])*16777216 + Z(hdr[2])*65536 + Z(hdr[3])*256 + Z(hdr[4]) == lastret("Len"))
+
+//@ func compress
+//@   prop C27
+//@   ensures implies(compressor == nil && cp == nil, result1 == compressionNone && result2 == nil && len(result0) == 0)
+//@   ensures implies(result2 != nil, result1 == compressionNone)
+//@   ensures implies(result1 != compressionNone, result1 == compressionMade && (compressor != nil || cp != nil))
+//@   ensures implies(result2 == nil && (compressor != nil || cp != nil) && lastret("Len#1") != 0, result1 == compressionMade)
+//@   ensures implies((compressor != nil || cp != nil) && lastret("Len#1") == 0, result1 == compressionNone && result2 == nil)
+//@   assert at call Len#1 sameslice(arg0, in)
+
+// decompress: the size-aware gzip helper and the LimitReader get exactly the
+// limit (+1 for the reader); the success returns happen only with a result
+// within the limit, and an over-limit result is RESOURCE_EXHAUSTED. Return
+// statements are numbered in source order.
+
+//@ func decompress
+//@   prop C06
+//@   assert at call doWithMaxSize#1 Z(arg2) == Z(maxReceiveMessageSize)
+//@   assert at call LimitReader#1 Z(arg1) == Z(maxReceiveMessageSize) + 1
+//@   assert at call ReadAll#1 ncalls("LimitReader") == 1 || Z(maxReceiveMessageSize) == 9223372036854775807
+//@   assert at return 2 len(uncompressed) > maxReceiveMessageSize && isstatus(result1) && statuscode(result1) == uint32(codes.ResourceExhausted)
+//@   assert at return 3 len(uncompressed) <= maxReceiveMessageSize && result1 == nil && len(result0) == 1
+//@   assert at return 6 lastret("Len") > Z(maxReceiveMessageSize) && isstatus(result1) && statuscode(result1) == uint32(codes.ResourceExhausted)
+//@   assert at return 7 lastret("Len") <= Z(maxReceiveMessageSize) && result1 == nil
+//@   ensures implies(result1 != nil, isstatus(result1) && (statuscode(result1) == uint32(codes.Internal) || statuscode(result1) == uint32(codes.ResourceExhausted)))
+//@   ensures implies(dc == nil && compressor == nil, result1 != nil && statuscode(result1) == uint32(codes.Internal))
+
+// prepareMsg: for a message that is not a PreparedMsg the header is built by
+// msgHeader from the encoder's data, compress's output and compress's flag, and
+// the flag returned is that flag: it is compressionMade only if a compressor is set.
+
+//@ func prepareMsg
+//@   prop C27 C06
+//@   assert at call compress#1 sameslice(arg0, data) && arg1 == cp && arg2 == comp
+//@   assert at call msgHeader#1 sameslice(arg0, data) && sameslice(arg1, compData) && arg2 == pf
+//@   assert at return 4 err == nil && len(hdr) == 5 && hdr[0] == byte(pf) && implies(pf != compressionNone, pf == compressionMade && (cp != nil || comp != nil))
+//@   assert at return 4 implies(pf == compressionMade, sameslice(payload, compData)) && implies(pf != compressionMade, sameslice(payload, data))
+
+// encode: a message of 2^32 bytes or more is refused with RESOURCE_EXHAUSTED
+// (the length prefix has 32 bits).
+
+//@ func encode
+//@   prop C06
+//@   assert at return 3 isstatus(result1) && statuscode(result1) == uint32(codes.ResourceExhausted) && !(0 <= lastret("Len") && lastret("Len") <= 4294967295)
+//@   assert at return 4 result1 == nil && 0 <= lastret("Len") && lastret("Len") <= 4294967295
+
+// validateSendCompressor (server side, SetSendCompressor): a non-identity
+// compressor is accepted only if the client advertised it.
+// acceptedCompressorAllows (client side): exact membership test.
+
+//@ func validateSendCompressor
+//@   prop C27
+//@   nopanic
+//@   loop 1 invariant forall(func(j int) bool { return implies(0 <= j && j <= rangeindex, clientCompressors[j] != name) })
+//@   ensures implies(name == "identity", result == nil)
+//@   ensures implies(result == nil && name != "identity", exists(func(i int) bool { return 0 <= i && i < len(clientCompressors) && clientCompressors[i] == name }))
+//@   ensures implies(name != "identity" && forall(func(i int) bool { return implies(0 <= i && i < len(clientCompressors), clientCompressors[i] != name) }), result != nil)
+
+//@ func acceptedCompressorAllows
+//@   prop C27
+//@   nopanic
+//@   loop 1 invariant forall(func(j int) bool { return implies(0 <= j && j <= rangeindex, allowed[j] != name) })
+//@   ensures implies(allowed == nil || name == "" || name == "identity", result)
+//@   ensures implies(result && allowed != nil && name != "" && name != "identity", exists(func(i int) bool { return 0 <= i && i < len(allowed) && allowed[i] == name }))
+//@   ensures implies(allowed != nil && name != "" && name != "identity" && forall(func(i int) bool { return implies(0 <= i && i < len(allowed), allowed[i] != name) }), !result)
+
+// recvAndDecompress: the flag read from the wire is checked against the
+// stream's encoding before anything is delivered; a message is returned only
+// if that check passed (lastret("checkRecvPayload") == 0: it returned nil), a
+// compressed message only through decompress with the caller's limit, and an
+// uncompressed one as received.
+
+//@ func recvAndDecompress
+//@   prop C06 C27
+//@   requires p != nil && p.r != nil && s != nil
+//@   assert at call recvMsg#1 arg0 == p && arg1 == maxReceiveMessageSize
+//@   assert at call checkRecvPayload#1 arg0 == pf && arg2 == (compressor != nil || dc != nil) && arg3 == isServer
+//@   assert at call decompress#1 pf == compressionMade && arg0 == compressor && sameslice(arg1, compressed) && arg2 == dc && arg3 == maxReceiveMessageSize
+//@   assert at return 2 lastret("checkRecvPayload") != 0 && result1 != nil
+//@   assert at return 4 lastret("checkRecvPayload") == 0 && result1 == nil
+//@   assert at return 4 implies(pf != compressionMade, sameslice(result0, compressed)) && implies(pf == compressionMade, ncalls("decompress") == 1)
